@@ -4,7 +4,9 @@ Implementation under test (real code, in-process): a generated package (platform
 named environments per platform, component overrides, list-valued options in every layer with explicitly empty
 lists over non-empty inherited ones, user variable files, replication/aggregation, optionally a DoWhile document; laid out as a package directory or as a FlowIR file + manifest whose entries are copied, linked
 and nested; data/ and input/ files; application dependencies per platform; references of components into all of
-these folders) is turned into a real `Experiment` (ExperimentPackage.packageFromLocation +
+these folders; in about half of the multi-stage packages one or two component NAMES are used in two or three stages with
+different roles - a component is identified by (stage, name) - the later namesake consuming the earlier one, neighbours
+referencing the namesake of their own stage by its bare name, also the names the iterations of the loop carry) is turned into a real `Experiment` (ExperimentPackage.packageFromLocation +
 Experiment.experimentFromPackage); the loop is advanced 0-3 iterations through the real
 `WorkflowGraph.instantiate_dowhile_next_iteration`; optionally options are patched through
 `WorkflowGraph.setOptionForNode`; then a HISTORY of loads and further iterations on the instance directory: every load is
@@ -25,7 +27,9 @@ user-variable views (`configuration.get_user_variables()`, `get_global_variables
 of the loaded object are those of the object that drove the instance before it; same nodes, same `configurationForNode` of every node, same environment of every
 node, same data references (text, method, producer or path, location), same edges after every load as the experiment
 object that drove the instance before it (the creator, or the loaded object that instantiated the last iteration);
-the parsed content of conf/flowir_instance.yaml is not changed by any load (+ store).
+the parsed content of conf/flowir_instance.yaml is not changed by any load (+ store); after the creation and after
+every step the description on disk lists, by (stage, name), exactly the components of the description held by the
+object that wrote it last or was loaded from it.
 Model: lean/St4sd/Model/Instance.lean through drv-c07 (`flatten` = FlowIRConcrete.instance(fill_in_all=False,
 is_primitive=True); op `session` = `Instance.step`: iterations, loads naming the platform or not and updating the files or
 not, explicit stores) compared with the parsed stored file after every step and with `configurationForNode` of the
@@ -178,6 +182,29 @@ def gen_case(rng, tier="quick"):
     for i in range(rng.randint(0, 2)):
         st = rng.randrange(nstages)
         comps.append(mk("c%d" % i, st, refs=["stage0.src:output"] if rng.random() < 0.5 else ()))
+    # the same component NAME in two (or three) stages: a component is identified by (stage, name) - stage0.src and
+    # stage1.src are different components with different roles (what migrated components of consecutive stages are
+    # required to look like, and what multi-stage packages do: stage0.simulate / stage1.simulate); the later namesake
+    # may consume the earlier one, and a neighbour may reference the namesake of its own stage by its bare name
+    if nstages > 1 and rng.random() < 0.55:
+        pool = list(comps)
+        for k in range(rng.choice([1, 1, 2])):
+            if with_loop and rng.random() < 0.2:
+                nm, ostage = rng.choice(["add", "stop"]), 1     # the names the iterations of the loop carry (`<k>#add`)
+            else:
+                orig = rng.choice(pool)
+                nm, ostage = orig["name"], orig["stage"]
+            taken = {c["stage"] for c in comps if c["name"] == nm} | ({1} if nm in ("add", "stop") else set())
+            free = [s for s in range(nstages) if s not in taken]
+            if not free:
+                continue
+            st = rng.choice(free)
+            refs = []
+            if st > ostage and nm not in ("add", "stop") and rng.random() < 0.6:
+                refs.append("stage%d.%s:%s" % (ostage, nm, rng.choice(["ref", "output"])))
+            comps.append(mk(nm, st, refs=refs))
+            if rng.random() < 0.5:
+                comps.append(mk("use" + "ab"[k], st, refs=["%s:%s" % (nm, rng.choice(["ref", "output"]))]))
     dowhile = None
     iterations = 0
     if with_loop:
@@ -718,6 +745,13 @@ def load_instance(inst, platform, how):
     raise ValueError(how)
 
 
+def writer_ids(exp):
+    """[stage, name] of every component of the description the object holds (`_unreplicated`: what it stores), sorted,
+    duplicates kept"""
+    return sorted([int(c.get("stage", 0)), str(c.get("name"))]
+                  for c in exp.configuration._unreplicated.raw().get("components") or [])
+
+
 def unrep_components(exp):
     return {(int(c.get("stage", 0)), c["name"]): c for c in exp.configuration._unreplicated.raw().get("components") or []}
 
@@ -800,6 +834,7 @@ def run_impl(case, tmp):
         out["refs"] = [out["before"]]
         fpath = os.path.join(inst, "conf", "flowir_instance.yaml")
         out["stored"] = [open(fpath, "rb").read()]
+        out["holder_ids"] = [writer_ids(exp)]
         out["listing"] = [listing_of(inst)]
         out["loads"] = []
         out["new_comps"] = {}
@@ -817,6 +852,7 @@ def run_impl(case, tmp):
                     return out
                 out["refs"].append(snapshot(cur, inst, rebuilt_edges=True))
                 out["stored"].append(open(fpath, "rb").read())
+                out["holder_ids"].append(writer_ids(cur))
                 if ctl is not None:
                     try:
                         next_iteration(ctl, iteration)
@@ -845,6 +881,7 @@ def run_impl(case, tmp):
                 exp2.configuration.store_unreplicated_flowir_to_disk()
             out["loads"].append({"step": k, "how": how, "after": snapshot(exp2, inst), "ref": len(out["refs"]) - 1})
             out["stored"].append(open(fpath, "rb").read())
+            out["holder_ids"].append(writer_ids(exp2))
             cur = exp2
         return out
     finally:
@@ -1189,6 +1226,15 @@ def check_case(ctx, case, tmp_root, record=None):
         if a["op"] == "load" and b["op"] == "iterate":
             tags.append("iterate-after-load:" + a["how"])
     tags += sorted(list_option_tags(case))
+    stages_of = {}
+    for c in comps:
+        stages_of.setdefault(c["name"], set()).add(int(c.get("stage", 0)))
+    shared = [nm for nm, ss in stages_of.items() if len(ss) > 1]
+    tags.append("component-name-shared-by-stages:%d" % min(len(shared), 2))
+    if any(nm in ("add", "stop") for nm in stages_of) and case["dowhile"]:
+        tags.append("component-named-like-a-loop-component")
+    if any(r.rsplit(":", 1)[0] in shared for c in comps for r in c.get("references") or []):
+        tags.append("bare-reference-to-a-name-shared-by-stages")
     if nondefault:
         # the shape the stored description folded wrongly before fix 1b655bb: one option path set by the default
         # blueprint of a stage and by the global blueprint of the selected platform
@@ -1316,6 +1362,18 @@ def check_case(ctx, case, tmp_root, record=None):
     if out.get("control_error"):
         ctx.tag("control-experiment-failed")
     parsed = [canon_flowir(yaml.safe_load(b)) for b in out["stored"]]
+    # "the same set of components": the description on disk lists, by (stage, name), exactly the components of the
+    # description held by the object that wrote it last (creator, iterating object, updating load) or that was loaded
+    # from it (read-only load) - a component is identified by its stage AND its name
+    for i, (doc_i, held) in enumerate(zip(parsed, out.get("holder_ids") or [])):
+        on_disk = sorted([int(c.get("stage", 0)), str(c.get("name"))] for c in doc_i.get("components") or [])
+        if on_disk != held:
+            ctx.fail("stored-description-lists-other-components-than-the-experiment-that-holds-it", case,
+                     {"after_step": i - 1, "step": (steps[i - 1] if i else "creation"),
+                      "only_in_memory": [x for x in held if x not in on_disk],
+                      "only_on_disk": [x for x in on_disk if x not in held],
+                      "stored": len(on_disk), "in_memory": len(held)})
+            break
     nload = 0
     for i in range(1, len(parsed)):
         st = steps[i - 1]
@@ -1343,7 +1401,9 @@ def check_case(ctx, case, tmp_root, record=None):
             st = nd["conf"].get("stage")
             own = {}
             for c in comps:
-                if "stage%s.%s" % (c.get("stage", 0), c["name"]) == n or n.split(".", 1)[1].rstrip("0123456789") == c["name"]:
+                if "stage%s.%s" % (c.get("stage", 0), c["name"]) == n or (
+                        n.split(".", 1)[0] == "stage%s" % c.get("stage", 0)
+                        and re.fullmatch(re.escape(c["name"]) + r"\d+", n.split(".", 1)[1])):
                     own = dict(c.get("variables") or {})
                     for o in (c.get("override") or {}).values():
                         own.update((o or {}).get("variables") or {})
@@ -1674,6 +1734,32 @@ CORPUS = [
      "explicit_store": False, "cycles": 2, "reloads": ["restart", "same"],
      "history": [{"op": "load", "how": "restart"}, {"op": "iterate"}, {"op": "load", "how": "same"}],
      "layout": "dir", "folders": [], "appdeps": [], "inputs": [], "datafiles": []},
+    # one component name in three stages with three roles (a component is identified by (stage, name)): stage0.src is
+    # replicated, stage1.src consumes it and aggregates, stage2.src consumes stage1.src; neighbours reference the
+    # namesake of their own stage by its bare name; per-stage variables and an override tell the three apart; loaded
+    # by a tool (load + store), by a restart and by a tool again
+    {"main": {"platforms": ["default", "hpc"],
+              "variables": {"default": {"global": {"v1": "g"}, "stages": {0: {"v2": "s0"}, 1: {"v2": "s1"}, 2: {"v2": "s2"}}},
+                            "hpc": {"global": {"v1": "h"}, "stages": {1: {"v2": "h1"}}}},
+              "components": [{"name": "prep", "stage": 0, "command": {"executable": "echo", "arguments": "%(v1)s"}},
+                             {"name": "src", "stage": 0,
+                              "command": {"executable": "echo", "arguments": "%(v2)s %(replica)s prep:ref"},
+                              "references": ["prep:ref"], "workflowAttributes": {"replicate": 2}},
+                             {"name": "src", "stage": 1,
+                              "command": {"executable": "cat", "arguments": "%(v2)s stage0.src:ref stage0.prep:ref"},
+                              "references": ["stage0.src:ref", "stage0.prep:ref"],
+                              "workflowAttributes": {"aggregate": True, "maxRestarts": 2},
+                              "override": {"hpc": {"workflowAttributes": {"maxRestarts": 7}}}},
+                             {"name": "prep", "stage": 1, "command": {"executable": "echo", "arguments": "src:output"},
+                              "references": ["src:output"], "variables": {"v2": "own"}},
+                             {"name": "src", "stage": 2,
+                              "command": {"executable": "ls", "arguments": "%(v2)s stage1.src:ref"},
+                              "references": ["stage1.src:ref"]},
+                             {"name": "use", "stage": 2, "command": {"executable": "echo", "arguments": "src:ref"},
+                              "references": ["src:ref"]}]},
+     "dowhile": None, "platform": "hpc", "uservars": [{"global": {"v1": "u"}}], "iterations": 0, "patches": [],
+     "explicit_store": False, "cycles": 3, "reloads": ["same", "restart", "same"],
+     "layout": "dir", "folders": [], "appdeps": [], "inputs": [], "datafiles": []},
 ]
 
 
@@ -1682,7 +1768,9 @@ def run(ctx):
                 "%(ref)s values, blueprints, list-valued options (restartHookOn, shutdownOn, executors.pre/post) in "
                 "blueprints / components / per-platform overrides / DoWhile components incl. explicitly EMPTY lists over a "
                 "non-empty inherited or built-in list, named environments per platform, component variables and per-platform "
-                "overrides, replicate/aggregate, 0-2 user variable files, optional DoWhile document advanced 0-3 "
+                "overrides, replicate/aggregate, in ~55% of the multi-stage packages 1-2 component names shared by 2-3 stages "
+                "(namesakes with different roles, consumed across stages and by bare name inside a stage, names of loop "
+                "components included), 0-2 user variable files, optional DoWhile document advanced 0-3 "
                 "(thorough: up to 5) iterations, optional setOptionForNode patch; package directory or FlowIR file + "
                 "manifest with copied/linked/nested folders, data/ and input/ files, application dependencies, and "
                 "references into them) + selected platform + a history of 1-4 loads (experimentFromInstance naming the "
